@@ -238,3 +238,160 @@ theorem good_logged (u : σ) (l : List Event) (v0 : V) (k : Nat) :
 
 end Logged
 end Fsic
+
+/-! ### General stepping lemmas (all `errors` modes, non-finite values, raising passes) -/
+namespace Fsic
+section General
+variable {σ V : Type} (I : Interp σ V) (o : Opts) (t : Int)
+
+/-- The vector the solver *holds* after pass `k` (`previous_values` of pass `k+1`): the check vector read after
+    the pass, except that under `errors='replace'` a newly non-finite vector is zero-filled first. -/
+def hv (u0 : σ) (v0 : V) : Nat → V
+  | 0 => v0
+  | k + 1 =>
+    if I.allFinite (hv u0 v0 k) = true ∧ I.allFinite (I.check (traj I o t u0 (k + 1)) t) = false
+        ∧ o.errors = .replace
+    then I.zeroNF (I.check (traj I o t u0 (k + 1)) t)
+    else I.check (traj I o t u0 (k + 1)) t
+
+/-- Pass `i ≥ 1` neither stops the loop nor raises. -/
+def Continues (u0 : σ) (v0 : V) (i : Nat) : Prop :=
+  (I.eval o (traj I o t u0 (i - 1)) t i).2 = false ∧
+  ( I.allFinite (hv I o t u0 v0 (i - 1)) = false
+  ∨ (I.allFinite (hv I o t u0 v0 (i - 1)) = true ∧ I.allFinite (I.check (traj I o t u0 i) t) = false
+      ∧ (o.errors = .ignore ∨ o.errors = .replace) ∧ (i : Int) ≠ o.maxIter)
+  ∨ (I.allFinite (hv I o t u0 v0 (i - 1)) = true ∧ I.allFinite (I.check (traj I o t u0 i) t) = true
+      ∧ ((i : Int) < o.minIter ∨ I.close (I.check (traj I o t u0 i) t) (hv I o t u0 v0 (i - 1)) = false)) )
+
+theorem loop_step_continue (u0 : σ) (v0 : V) (fuel j : Nat) (h : Continues I o t u0 v0 (j + 1)) :
+    loop I o t (fuel + 1) (j + 1) (traj I o t u0 j) (hv I o t u0 v0 j)
+      = loop I o t fuel (j + 2) (traj I o t u0 (j + 1)) (hv I o t u0 v0 (j + 1)) := by
+  obtain ⟨hr, hc⟩ := h
+  simp only [Nat.add_sub_cancel] at hr hc
+  have e1 := eval_eq_of_not_raised I o t u0 j hr
+  rw [loop, e1]
+  simp only
+  rcases hc with h1 | ⟨h1, h2, h3, h4⟩ | ⟨h1, h2, h3⟩
+  · have hh : hv I o t u0 v0 (j + 1) = I.check (traj I o t u0 (j + 1)) t := by
+      simp [hv, h1]
+    simp only [h1, if_true, hh]
+  · rcases h3 with h3 | h3
+    · have hh : hv I o t u0 v0 (j + 1) = I.check (traj I o t u0 (j + 1)) t := by
+        simp [hv, h3]
+      simp only [h1, h2, h3, h4, hh, Bool.true_eq_false, if_false, if_true]
+    · have hh : hv I o t u0 v0 (j + 1) = I.zeroNF (I.check (traj I o t u0 (j + 1)) t) := by
+        simp [hv, h1, h2, h3]
+      simp only [h1, h2, h3, h4, hh, Bool.true_eq_false, if_false, if_true]
+  · have hh : hv I o t u0 v0 (j + 1) = I.check (traj I o t u0 (j + 1)) t := by
+      simp [hv, h2]
+    rcases h3 with h3 | h3
+    · simp only [h1, h2, h3, hh, Bool.true_eq_false, if_false, if_true]
+    · by_cases hm : ((j + 1 : Nat) : Int) < o.minIter
+      · simp only [h1, h2, hm, hh, Bool.true_eq_false, if_false, if_true]
+      · simp only [h1, h2, h3, hm, hh, Bool.true_eq_false, Bool.false_eq_true, if_false]
+
+/-- Skip over a run of continuing passes. -/
+theorem loop_skip (u0 : σ) (v0 : V) :
+    ∀ (d fuel j : Nat), (∀ i, j < i → i ≤ j + d → Continues I o t u0 v0 i) →
+      loop I o t (fuel + d) (j + 1) (traj I o t u0 j) (hv I o t u0 v0 j)
+        = loop I o t fuel (j + d + 1) (traj I o t u0 (j + d)) (hv I o t u0 v0 (j + d)) := by
+  intro d
+  induction d with
+  | zero => intro fuel j _; rfl
+  | succ d ih =>
+    intro fuel j h
+    have h1 := loop_step_continue I o t u0 v0 (fuel + d) j (h (j + 1) (Nat.lt_succ_self _) (by omega))
+    have h2 := ih fuel (j + 1) (fun i hi hi' => h i (by omega) (by omega))
+    have e : fuel + (d + 1) = fuel + d + 1 := by omega
+    rw [e, h1]
+    have e2 : j + 1 + d = j + (d + 1) := by omega
+    rw [e2] at h2
+    exact h2
+
+/-- Stop: a judged, accepted pass. -/
+theorem loop_stop_good (u0 : σ) (v0 : V) (fuel j : Nat)
+    (hr : (I.eval o (traj I o t u0 j) t (j + 1)).2 = false)
+    (h1 : I.allFinite (hv I o t u0 v0 j) = true)
+    (h2 : I.allFinite (I.check (traj I o t u0 (j + 1)) t) = true)
+    (h3 : ¬ ((j + 1 : Nat) : Int) < o.minIter)
+    (h4 : I.close (I.check (traj I o t u0 (j + 1)) t) (hv I o t u0 v0 j) = true) :
+    loop I o t (fuel + 1) (j + 1) (traj I o t u0 j) (hv I o t u0 v0 j) = afterOut I o t u0 (j + 1) := by
+  have e1 := eval_eq_of_not_raised I o t u0 j hr
+  rw [loop, e1]
+  simp only [h1, h2, h3, h4, Bool.true_eq_false, if_false, if_true]
+  rfl
+
+/-- Stop: a newly non-finite check value under a stopping policy. -/
+theorem loop_stop_fault (u0 : σ) (v0 : V) (fuel j : Nat)
+    (hr : (I.eval o (traj I o t u0 j) t (j + 1)).2 = false)
+    (h1 : I.allFinite (hv I o t u0 v0 j) = true)
+    (h2 : I.allFinite (I.check (traj I o t u0 (j + 1)) t) = false) :
+    loop I o t (fuel + 1) (j + 1) (traj I o t u0 j) (hv I o t u0 v0 j) =
+      match o.errors with
+      | .raise => .nonFinite (traj I o t u0 (j + 1)) (j + 1)
+      | .skip => .done (traj I o t u0 (j + 1)) .skipped (j + 1)
+      | .ignore =>
+        if ((j + 1 : Nat) : Int) = o.maxIter then .done (traj I o t u0 (j + 1)) .failed (j + 1)
+        else loop I o t fuel (j + 2) (traj I o t u0 (j + 1)) (I.check (traj I o t u0 (j + 1)) t)
+      | .replace =>
+        if ((j + 1 : Nat) : Int) = o.maxIter then .done (traj I o t u0 (j + 1)) .failed (j + 1)
+        else loop I o t fuel (j + 2) (traj I o t u0 (j + 1)) (I.zeroNF (I.check (traj I o t u0 (j + 1)) t))
+      | .invalid => .badErrors (traj I o t u0 (j + 1)) (j + 1) := by
+  have e1 := eval_eq_of_not_raised I o t u0 j hr
+  rw [loop, e1]
+  simp only [h1, h2, Bool.true_eq_false, if_false, if_true]
+  rfl
+
+/-- Stop: the pass raises. -/
+theorem loop_stop_raise (u0 : σ) (v0 : V) (fuel j : Nat)
+    (hr : (I.eval o (traj I o t u0 j) t (j + 1)).2 = true) :
+    loop I o t (fuel + 1) (j + 1) (traj I o t u0 j) (hv I o t u0 v0 j)
+      = .evalRaised (traj I o t u0 (j + 1)) (j + 1) := by
+  have e1 : I.eval o (traj I o t u0 j) t (j + 1) = (traj I o t u0 (j + 1), true) := Prod.ext rfl hr
+  rw [loop, e1]
+
+/-- A pass that starts from non-finite held values is never judged: whatever it produces, the loop goes on. -/
+theorem loop_unjudged (fuel k : Nat) (u : σ) (prev : V)
+    (hr : (I.eval o u t k).2 = false) (hp : I.allFinite prev = false) :
+    loop I o t (fuel + 1) k u prev
+      = loop I o t fuel (k + 1) (I.eval o u t k).1 (I.check (I.eval o u t k).1 t) := by
+  have e1 : I.eval o u t k = ((I.eval o u t k).1, false) := Prod.ext rfl hr
+  rw [loop, e1]
+  simp only [hp, if_true]
+
+end General
+end Fsic
+
+namespace Fsic
+section Accepted
+variable {σ V : Type} (I : Interp σ V) (o : Opts) (n : Nat) (t : Int) (w : World σ)
+
+/-- Accepted call: `min_iter ≤ max_iter` and the offset test passes (or `offset = 0`). -/
+def Accepted : Prop :=
+  ¬ o.minIter > o.maxIter ∧ (o.offset = 0 ∨ (0 ≤ normT n t + o.offset ∧ normT n t + o.offset < n))
+
+theorem solveT_accepted (h : Accepted o n t) :
+    solveT I o n t w = solveCore I o n t w (seed I o t w.user) := by
+  obtain ⟨h0, h1 | ⟨h2, h3⟩⟩ := h
+  · simp [solveT, h0, h1]
+  · have h2' : ¬ normT n t + o.offset < 0 := by omega
+    have h3' : ¬ normT n t + o.offset ≥ n := by omega
+    simp [solveT, h0, h2', h3']
+
+/-- An accepted call whose starting check values pass the up-front test and whose pre-hook does not raise
+    is the iteration loop followed by the bookkeeping. -/
+theorem solveT_eq_finish (hacc : Accepted o n t)
+    (hpre : ¬ (o.errors = .raise ∧ I.allFinite (I.check (seed I o t w.user) t) = false))
+    (hb : (I.before o (seed I o t w.user) t).2 = false) :
+    solveT I o n t w =
+      finish o n t w (loop I o t o.maxIter.toNat 1 (I.before o (seed I o t w.user) t).1
+        (I.check (seed I o t w.user) t)) := by
+  rw [solveT_accepted I o n t w hacc]
+  unfold solveCore
+  have hbe : I.before o (seed I o t w.user) t = ((I.before o (seed I o t w.user) t).1, false) :=
+    Prod.ext rfl hb
+  rw [hbe]
+  simp only [hpre, if_false]
+
+end Accepted
+end Fsic
